@@ -177,16 +177,13 @@ theorem decode_canonical_number {s : Bytes} {n ll : Nat} (h : readNumber s = .ok
 
 example : readNumber [0x86, 0x48, 0x01] = .ok (840, 2) := by decide
 
-/-- `read_number` raises `UnexpectedDER` and nothing else on every NON-EMPTY input.  (On `b""` the helper
-raises `IndexError` — `str_idx_as_int(string, 0)` — `read_number_empty` below; `remove_object` never calls it
-with an empty string: `decode_error_oid`.) -/
-theorem decode_error_number {s : Bytes} {e : PyErr} (hs : s ≠ []) (h : readNumber s = .error e) :
-    e = .unexpectedDER := by
-  rcases readNumber_err h with ⟨_, h2⟩ | ⟨h1, _⟩
-  · exact h2
-  · exact absurd h1 hs
+/-- `read_number` raises `UnexpectedDER` and nothing else, on every input (the empty string included: F11, fixed by
+23101b2 — before, `str_idx_as_int(b"", 0)` leaked `IndexError`) -/
+theorem decode_error_number {s : Bytes} {e : PyErr} (h : readNumber s = .error e) : e = .unexpectedDER :=
+  readNumber_err h
 
-theorem read_number_empty : readNumber [] = .error .indexError := rfl
+/-- the F11 witness -/
+theorem read_number_empty : readNumber [] = .error .unexpectedDER := rfl
 
 /-- padded (leading `0x80`) and unterminated sub-identifiers -/
 example : readNumber [0x80, 0x01] = .error .unexpectedDER ∧ readNumber [0x81, 0x82] = .error .unexpectedDER := by
